@@ -240,7 +240,10 @@ def finish(spec, batch, tier, seed, level, extra_cov=None):
         except Exception:
             small, nrun = res, 0
             lines.append('note: minimisation failed: ' + traceback.format_exc(limit=2))
-        v2 = next((x for x in small['violations'] if x['oracle'] == v['oracle']), small['violations'][0])
+        # report the violation that made this case unknown, not a listed finding that happens to share its oracle
+        v2 = (next((x for x in small['violations'] if vkey(x) == vkey(v)), None)
+              or next((x for x in small['violations'] if x['oracle'] == v['oracle'] and match_known(x, known) is None), None)
+              or next((x for x in small['violations'] if x['oracle'] == v['oracle']), small['violations'][0]))
         path = write_replay(spec, small, v2, minimised_from={'case_idx': idx, 'seed': res.get('seed'),
                                                             'reruns': nrun})
         ok, outp = verify_replay_fresh(path)
